@@ -1,0 +1,106 @@
+//! Verification seam. Compiled only with `--cfg graaf_verif`.
+//!
+//! The threaded routines of [`AdjacencyList`](crate::AdjacencyList) and
+//! [`AdjacencyMap`](crate::AdjacencyMap) import their threading primitives
+//! from this module when the guard is on. Without the `sched` feature (which
+//! only the verification harness's shadow manifest declares) the primitives
+//! are the ones from `std`; with it they are the controlled-scheduler
+//! versions from `shuttle`. `available_parallelism` can be overridden per
+//! thread so that a harness owns the worker count.
+
+#![allow(clippy::all, clippy::pedantic, clippy::nursery, clippy::cargo)]
+#![allow(missing_docs)]
+
+#[cfg(feature = "sched")]
+pub use shuttle::{
+    sync::{
+        atomic::AtomicBool,
+        Mutex,
+    },
+    thread::{
+        scope,
+        spawn,
+    },
+};
+#[cfg(not(feature = "sched"))]
+pub use std::{
+    sync::{
+        atomic::AtomicBool,
+        Mutex,
+    },
+    thread::{
+        scope,
+        spawn,
+    },
+};
+use std::{
+    cell::Cell,
+    io,
+    num::NonZero,
+};
+
+/// Mirrors the parts of `std::thread` the hooked routines name through the
+/// `thread::` path.
+pub mod thread {
+    #[cfg(feature = "sched")]
+    pub use shuttle::thread::{
+        scope,
+        spawn,
+    };
+    #[cfg(not(feature = "sched"))]
+    pub use std::thread::{
+        scope,
+        spawn,
+    };
+
+    pub use super::available_parallelism;
+}
+
+/// What `available_parallelism` answers on this thread.
+#[derive(Clone, Copy, Debug, Eq, PartialEq)]
+pub enum Parallelism {
+    /// Ask the operating system (`std::thread::available_parallelism`).
+    System,
+    /// Answer `Ok(n)`; `n` must be positive.
+    Fixed(usize),
+    /// Answer `Err(..)`.
+    Unavailable,
+}
+
+thread_local! {
+    static PARALLELISM: Cell<Parallelism> = const { Cell::new(Parallelism::System) };
+    static CALLS: Cell<u64> = const { Cell::new(0) };
+}
+
+/// Sets the answer of `available_parallelism` for the calling thread and
+/// returns the previous setting.
+pub fn set_parallelism(p: Parallelism) -> Parallelism {
+    PARALLELISM.with(|c| c.replace(p))
+}
+
+/// Number of times `available_parallelism` was consulted on this thread.
+#[must_use]
+pub fn parallelism_calls() -> u64 {
+    CALLS.with(Cell::get)
+}
+
+/// The seam in front of `std::thread::available_parallelism`.
+///
+/// # Errors
+///
+/// Returns an error if the override is [`Parallelism::Unavailable`] or if
+/// the operating system cannot answer.
+pub fn available_parallelism() -> io::Result<NonZero<usize>> {
+    CALLS.with(|c| c.set(c.get() + 1));
+
+    match PARALLELISM.with(Cell::get) {
+        Parallelism::System => std::thread::available_parallelism(),
+        Parallelism::Fixed(n) => NonZero::new(n).ok_or_else(|| {
+            io::Error::new(io::ErrorKind::InvalidInput, "zero parallelism")
+        }),
+        Parallelism::Unavailable => Err(io::Error::new(
+            io::ErrorKind::Unsupported,
+            "parallelism unavailable (verification override)",
+        )),
+    }
+}
